@@ -56,14 +56,38 @@ impl Writer<W> for QW {
 
 impl writer::Normalized for QW {}
 
+/// Half of the cases install a subscriber that filters at WARN (through
+/// `configure_and_init_tracing`) and log at that level; the others use `init_tracing()` and INFO.
+static WARN_MODE: std::sync::atomic::AtomicBool = std::sync::atomic::AtomicBool::new(false);
+
 fn log_hook(s: &str) {
-    tracing::info!("{s}");
+    if WARN_MODE.load(std::sync::atomic::Ordering::Relaxed) {
+        tracing::warn!("{s}");
+    } else {
+        tracing::info!("{s}");
+    }
 }
 
 /// A child span of the current (step / hook) span that outlives the callback: what a step does that
 /// spawns an instrumented background task. It is closed when the schedule releases its pseudo-gate.
 fn span_hook(name: &str) -> Box<dyn std::any::Any> {
-    Box::new(tracing::info_span!("background job", name))
+    // (ERROR level: must not be dropped by the WARN filter of half of the cases)
+    Box::new(tracing::error_span!("background job", name))
+}
+
+/// The background task's last words: a log inside its span (a child of the step / hook span), emitted
+/// after the callback returned and right before the span closes.
+fn span_release_hook(obj: &dyn std::any::Any, tok: &str) {
+    if let Some(span) = obj.downcast_ref::<tracing::Span>() {
+        span.in_scope(|| log_hook(tok));
+    }
+}
+
+/// A log from a detached thread: no span of any scenario is current there, the integration can
+/// only hand it to every scenario that is running.
+fn unattributed_log_hook(s: &str) {
+    let s = s.to_string();
+    let _ = std::thread::spawn(move || log_hook(&s)).join();
 }
 
 fn profile() -> Profile {
@@ -98,15 +122,27 @@ fn run_one(input: &Input, want_sample: bool) -> Value {
     lab::with_lab(|l| {
         l.log_hook = Some(log_hook);
         l.span_hook = Some(span_hook);
+        l.span_release_hook = Some(span_release_hook);
+        l.unattributed_log_hook = Some(unattributed_log_hook);
     });
     let (parser, delivered) = driver::prepare(&case);
     lab::with_lab(|l| {
         l.log_hook = Some(log_hook);
         l.span_hook = Some(span_hook);
+        l.span_release_hook = Some(span_release_hook);
+        l.unattributed_log_hook = Some(unattributed_log_hook);
     });
     let queue = QW::default();
     let opts = cli::Opts::<cli::Empty, runner::basic::Cli, cli::Empty, cli::Empty> { re_filter: None, tags_filter: None, parser: cli::Empty, runner: driver::build_cli(&case), writer: cli::Empty, custom: cli::Empty };
-    let cuc = Cucumber::<W, _, (), _, _, cli::Empty>::custom(PW(parser), driver::build_runner(&case), queue.clone()).with_cli(opts).init_tracing();
+    let warn_mode = vlab::tape::hash_str(&format!("{:?}", &input.a[..input.a.len().min(6)])) % 2 == 1;
+    WARN_MODE.store(warn_mode, std::sync::atomic::Ordering::Relaxed);
+    let cuc = Cucumber::<W, _, (), _, _, cli::Empty>::custom(PW(parser), driver::build_runner(&case), queue.clone()).with_cli(opts);
+    let cuc = if warn_mode {
+        use tracing_subscriber::{Layer as _, filter::LevelFilter, fmt::format, layer::SubscriberExt as _};
+        cuc.configure_and_init_tracing(format::DefaultFields::new(), format::Format::default(), |layer| tracing_subscriber::registry().with(LevelFilter::WARN.and_then(layer)))
+    } else {
+        cuc.init_tracing()
+    };
     let mut fut = Box::pin(cuc.run(()));
     let mut done = false;
     let mut tb = Tape::new(input.b.clone());
@@ -159,6 +195,10 @@ fn run_one(input: &Input, want_sample: bool) -> Value {
                 expected.push((format!("LOGTOK|{}|{}|{}|{phase}{j}|END", c.key, c.inv, c.world.map_or("-".to_string(), |w| w.to_string())), c.key.clone(), c.inv, c.world));
             }
         }
+        // the log of the background task the callback left behind (emitted when the schedule ends it)
+        if lab::leaves_span(&c.key, c.inv) {
+            expected.push((format!("LOGTOK|{}|{}|{}|late0|END", c.key, c.inv, c.world.map_or("-".to_string(), |w| w.to_string())), c.key.clone(), c.inv, c.world));
+        }
     }
     // observed Log events
     let mut seen: HashMap<String, Vec<usize>> = HashMap::new();
@@ -170,6 +210,8 @@ fn run_one(input: &Input, want_sample: bool) -> Value {
                     let tok = rest.find("|END").map_or(rest.trim_end().to_string(), |e| rest[..e + 4].to_string());
                     seen.entry(tok).or_default().push(e.idx);
                 }
+                // (logs from outside every scenario's context may be handed to any running scenario)
+                None if msg.contains("UNATTR|") => {}
                 None => viol.push(v("foreign-log", format!("Log event #{} carries no emitted token: {msg:?}", e.idx))),
             }
         }
@@ -245,6 +287,11 @@ fn run_one(input: &Input, want_sample: bool) -> Value {
         }
         concurrent_logging = per_round.values().any(|s| s.len() >= 2);
     }
+    // the stream-level oracles of C03 (framing) and C07 (serial isolation) on this build
+    if completed {
+        viol.extend(lab::oracles::check_c03(&case, &log));
+        viol.extend(lab::oracles::check_c07(&case, &log, &m));
+    }
     let n_logs = log.events.iter().filter(|e| matches!(&e.k, EvKind::Sc { ev: ScEv::Log(_), .. })).count();
     let mut labels: Vec<&str> = vec![];
     if concurrent_logging {
@@ -258,6 +305,9 @@ fn run_one(input: &Input, want_sample: bool) -> Value {
     }
     if ambient.is_some() {
         labels.push("ambient_user_span");
+    }
+    if warn_mode {
+        labels.push("subscriber_filters_at_warn");
     }
     if log.quiescent.iter().any(|q| q.action.starts_with("span:")) {
         labels.push("span_outlives_its_callback");
@@ -316,6 +366,16 @@ impl Property for C20 {
         vec![("nontrivial", 0.03)]
     }
     fn run(&self, input: &Input, ctx: &Ctx) -> CaseOut {
+        let mut out = raw_run(input, ctx);
+        out.violations.retain(|v| v.sig.starts_with("C20/"));
+        out
+    }
+}
+
+/// Runs one case in a child process; returns the violations of every oracle evaluated there
+/// (`C20/…` and the lab oracles `C03/…`, `C07/…`).
+fn raw_run(input: &Input, ctx: &Ctx) -> CaseOut {
+    {
         let exe = std::env::current_exe().expect("current_exe");
         let mut child = match Command::new(exe).arg("case").arg(if ctx.want_sample { "sample" } else { "nosample" }).stdin(Stdio::piped()).stdout(Stdio::piped()).stderr(Stdio::null()).spawn() {
             Ok(c) => c,
@@ -365,7 +425,7 @@ impl Property for C04T {
         }
     }
     fn run(&self, input: &Input, ctx: &Ctx) -> CaseOut {
-        let mut out = C20.run(input, ctx);
+        let mut out = raw_run(input, ctx);
         out.violations = out
             .violations
             .into_iter()
@@ -376,12 +436,56 @@ impl Property for C04T {
     }
 }
 
+/// A RunnerLab property (C03 framing, C07 serial isolation) judged on the tracing build: the same
+/// cases as C20, the property's own stream oracle.
+struct LabT(&'static str);
+
+impl Property for LabT {
+    fn id(&self) -> &'static str {
+        self.0
+    }
+    fn saved_id(&self) -> &'static str {
+        match self.0 {
+            "C03" => "C03-tracing",
+            _ => "C07-tracing",
+        }
+    }
+    fn rule(&self) -> String {
+        format!("vtrace (crate built with feature `tracing`, Cucumber::run + init_tracing() or a WARN-filtering subscriber, one process per case): the C20 cases - callbacks logging in bursts, leaving child spans alive, logging from detached threads - judged by the stream oracle of {} only.", self.0)
+    }
+    fn tape_lens(&self, t: Tier) -> (usize, usize) {
+        C20.tape_lens(t)
+    }
+    fn cases(&self, tier: Tier) -> u64 {
+        match tier {
+            Tier::Quick => 600,
+            Tier::Thorough => 12_000,
+        }
+    }
+    fn run(&self, input: &Input, ctx: &Ctx) -> CaseOut {
+        let mut out = raw_run(input, ctx);
+        let prefix = format!("{}/", self.0);
+        out.violations = out
+            .violations
+            .into_iter()
+            .filter(|v| v.sig.starts_with(&prefix))
+            .map(|v| Violation::new(format!("{}/tracing-build/{}", self.0, &v.sig[prefix.len()..]), v.msg))
+            .collect();
+        out
+    }
+}
+
 fn main() {
     let _ = engine::HARNESS.set("vtrace");
     let args: Vec<String> = std::env::args().collect();
     let tier_of = |s: &str| if s == "thorough" { Tier::Thorough } else { Tier::Quick };
     let seed: u64 = std::env::var("VERIF_SEED").ok().and_then(|s| s.parse().ok()).unwrap_or(0);
-    let prop: &dyn Property = if args.get(2).is_some_and(|a| a == "C04") { &C04T } else { &C20 };
+    let prop: &dyn Property = match args.get(2).map(String::as_str) {
+        Some("C04") => &C04T,
+        Some("C03") => &LabT("C03"),
+        Some("C07") => &LabT("C07"),
+        _ => &C20,
+    };
     match args.get(1).map(String::as_str) {
         Some("case") => {
             let mut s = String::new();
